@@ -30,6 +30,7 @@ package main
 import (
 	"bufio"
 	"fmt"
+	"log/slog"
 	"net"
 	"os"
 	"runtime"
@@ -106,6 +107,9 @@ func (m *verifMetrics) AddCipherSearch(proto string, accessKeyFound bool, timeTo
 func TestVerifDriver(t *testing.T) {
 	if os.Getenv("VERIF_DRIVER") == "" {
 		t.Skip("verification driver: set VERIF_DRIVER=1")
+	}
+	if os.Getenv("VERIF_DEBUG") != "" {
+		slog.SetDefault(slog.New(slog.NewTextHandler(os.Stderr, &slog.HandlerOptions{Level: slog.LevelDebug})))
 	}
 	vm := &verifMetrics{}
 	var server *OutlineServer
